@@ -44,6 +44,10 @@ func runC03(p *core.Program, r *core.Report) {
 	if m == nil {
 		return
 	}
+	// exclusion is set algebra over the members of the character sets: it removes exactly the excluded
+	// characters only if every member is one character and the alphabet is the split of the joined set
+	// (= C02 R2.1 re-run: the set helpers)
+	r.Borrow("R3.1", func() { checkAlphabetProvenance(p, r, "R2.1") })
 
 	// R3.4 shape (shared with C02)
 	if g, why := resolveCharGen(p); g == nil {
